@@ -64,6 +64,7 @@ assumed("models.Document.tokenize",
     modifies=["self.words", "self.citation_tokens", "self.offs"],
     ensures={"part": "PART(self.words, self.plain_text, self.offs)",           # postcondition of Tokenizer.tokenize (proved, C12)
              "index_list": "INDEXES(self.citation_tokens, self.words)",         # likewise
+             "lists": "self.words is not None and self.citation_tokens is not None",
              "alive": "forall(lambda i: implies(0 <= i and i < len(self.words), alive(self.words[i])))",
              "nonl": "NONL(self.words)", "token_data": TOKEN_DATA, "lemmas": "regex_lemmas()"},
     trusted_note="one line: self.words, self.citation_tokens = tokenizer.tokenize(self.plain_text); PART and INDEXES are the proved postconditions of "
@@ -107,14 +108,14 @@ contract("find.get_citations",
         ordered_by_span="forall(lambda j, j2: implies(0 <= j and j < j2 and j2 < len(result), result[j].span() <= result[j2].span()))",
         distinct_spans="forall(lambda j, j2: implies(0 <= j and j < j2 and j2 < len(result), result[j].span() != result[j2].span()))",
         text_is_input= "implies((markup_text is None or markup_text == '') and (clean_steps is None or len(clean_steps) == 0), ghost.doc.plain_text == plain_text)"))
-ghost_code("find.get_citations", "after:Assign#1", "ghost.doc = document")
+ghost_code("find.get_citations", "after:assign:document#1", "ghost.doc = document")
 loop("find.get_citations", 1,
     invariant=dict(_cits("citations", "document.plain_text"), doc="document is ghost.doc"))
 # lemma steps
-ghost_code("find.get_citations", "after:Assign#10",
+ghost_code("find.get_citations", "after:assign:citation#5",
     "assert document.words[i] is token and isinstance(token, Token), 'unknown_token_is_word'\n"
     "assert token.start is not None and token.end is not None, 'unknown_token_offsets'\n"
     "assert 0 <= token.start and token.start <= token.end and token.end <= len(document.plain_text), 'unknown_token_in_text'\n"
     "assert str(token) == document.plain_text[token.start:token.end], 'unknown_token_text'")
-ghost_code("find.get_citations", "after:Assign#10", "assert cit_wf(citation) and alive(citation) and alive(citation.metadata), 'unknown_citation_wf'\nassert SPANS(citation, document.plain_text), 'unknown_citation_spans'")
-ghost_code("find.get_citations", "after:Assign#11", "assert citations is not None, 'filtered_not_none'\nassert forall(lambda j: implies(0 <= j and j < len(citations), citations[j] is not None)), 'filtered_elems_not_none'")
+ghost_code("find.get_citations", "after:assign:citation#5", "assert cit_wf(citation) and alive(citation) and alive(citation.metadata), 'unknown_citation_wf'\nassert SPANS(citation, document.plain_text), 'unknown_citation_spans'")
+ghost_code("find.get_citations", "after:assign:citations#1", "assert citations is not None, 'filtered_not_none'\nassert forall(lambda j: implies(0 <= j and j < len(citations), citations[j] is not None)), 'filtered_elems_not_none'")
